@@ -71,6 +71,14 @@ fn rd_case(ctx: &mut Ctx, k: usize, content: &[u8], sched: &[String], class: &st
 }
 
 fn gen_c15(ctx: &mut Ctx) {
+    // writing delivers the whole frame also into a sink that, for everything it is given, writes a carrier frame of its
+    // own with Frame::write (a tunnel): a frame written from inside the writing of a frame
+    for msgs in [vec!["HE.3", "SD.16.0102", "RS.5.PLD"], vec!["SD.0.000102030405060708090A0B0C0D0E0F", "DC.1"], vec!["QS.65535"]] {
+        let line = format!("WIRES & {}", msgs.join(" "));
+        let res = ctx.case(line.clone(), true, "tunnelling-sink");
+        let want = format!("{} | left=0", msgs.iter().map(|m| format!("OK {}", m)).collect::<Vec<_>>().join(" ; "));
+        ctx.monitor(res == want, "C15-write-all", &line, &res);
+    }
     let mut rng = Rng::new(ctx.seed, 15);
     let thorough = ctx.tier_thorough;
     let f1 = enc(2, 1, &[3, 31], true);
